@@ -181,6 +181,17 @@ class CovRef(object):
                 o.reported = o.state()
         return exp
 
+    def write_many(self, writes):
+        """Several objects are written in one instant: [(kind, states), ...], every kind at most once.  Objects are
+        independent of each other, so the expectation is the union of the expectations per object."""
+        if len(set(k for k, _ in writes)) != len(writes):
+            raise ValueError("an object may appear once in a multi-object write")
+        exp = Expect("write")
+        exp.t = self.now
+        for kind, states in writes:
+            exp.notif.update(self.write(kind, states).notif)
+        return exp
+
     def advance(self, dt):
         """Time passes.  Expiry is applied after the expectation was judged (see settle_advance)."""
         exp = Expect("advance")
